@@ -75,6 +75,50 @@ def evs? (P : Profile) : List String → Option (List (Nat × Bytes))
     let r ← evs? P ts
     pure (a :: r)
 
+/-- One event token → the raw `(id, field bytes)` and, for `setc:<n>`, the threshold it installs. -/
+def evT? (P : Profile) (tok : String) : Option ((Nat × Bytes) × Option Nat) :=
+  match tok.splitOn ":" with
+  | ["setc", n] =>
+    match n.toNat? with
+    | some n => some (serverFields P (.setCompression n), some n)
+    | none => none
+  | _ => (ev? P tok).map fun r => (r, none)
+
+def evsT? (P : Profile) : List String → Option (List ((Nat × Bytes) × Option Nat))
+  | [] => some []
+  | t :: ts => do
+    let a ← evT? P t
+    let r ← evsT? P ts
+    pure (a :: r)
+
+/-- The server's frames: everything behind a `setc` event is framed with its threshold. -/
+def srvFrames (z : ZlibOps) : Option Int → List ((Nat × Bytes) × Option Nat) → List Bytes
+  | _, [] => []
+  | thr, (raw, sw) :: rest =>
+    packetFrame z thr raw ::
+      srvFrames z (match sw with
+        | some n => some (n : Int)
+        | none => thr) rest
+
+def srvNeedsDeflate : Option Int → List ((Nat × Bytes) × Option Nat) → Bool
+  | _, [] => false
+  | thr, (raw, sw) :: rest =>
+    compressesAt thr (packetPayload raw.1 raw.2).length ||
+      srvNeedsDeflate (match sw with
+        | some n => some (n : Int)
+        | none => thr) rest
+
+/-- A packet list with the same threshold changes as the events (only `thrAt` looks at it). -/
+def switchPkts (evs : List ((Nat × Bytes) × Option Nat)) : List SrvPkt :=
+  evs.map fun e =>
+    match e.2 with
+    | some n => .setCompression n
+    | none => .unknown 0 []
+
+def showThr : Option Int → String
+  | some t => toString t
+  | none => "none"
+
 def showPkts (ps : List (Nat × Bytes)) : String :=
   if ps.isEmpty then "-" else ",".intercalate (ps.map fun p => s!"{p.1}.{hexOut p.2}")
 
@@ -82,47 +126,60 @@ def needsDeflate (thr : Option Int) (ps : List (Nat × Bytes)) : Bool :=
   ps.any fun p => compressesAt thr (packetPayload p.1 p.2).length
 
 def run (ka pos disc thr capw capr : String) (evs : List String) : String :=
+  -- optional `setc=<cbid>` in front of the events: the id of the play-state set-compression packet
+  let (setc, evs) : Option (Option Nat) × List String :=
+    match evs with
+    | t :: rest =>
+      match kv? "setc" t with
+      | some v => (v.toNat?.map some, rest)
+      | none => (some none, evs)
+    | [] => (some none, [])
   match (kv? "ka" ka).bind ka?, (kv? "pos" pos).bind pos?, (kv? "disc" disc).bind (·.toNat?),
       (kv? "thr" thr).bind thr?, (kv? "capw" capw).bind (·.toNat?),
-      (kv? "capr" capr).bind (·.toNat?) with
+      (kv? "capr" capr).bind (·.toNat?), setc with
   | some (kaCb, kaSb, kaLong), some (posCb, ackSb, newer, dismount), some discCb, some thr,
-      some capW, some capR =>
+      some capW, some capR, some setc =>
     let P : Profile :=
       { kaCb := kaCb, kaSb := kaSb, posLookCb := posCb, teleportConfirmSb := ackSb,
         posLookSb := ackSb, disconnectCb := discCb, kaLong := kaLong, newer107 := newer,
-        dismount := dismount, others := [] }
-    match evs? P evs with
+        dismount := dismount, others := [], setCompressionCb := setc }
+    match evsT? P evs with
     | none => "bad-op"
     | some raws =>
-      if needsDeflate thr raws then "skip:deflate"
+      if raws.any (·.2.isSome) && setc.isNone then "bad-op"      -- a `setc:` event needs `setc=<id>`
+      else if srvNeedsDeflate thr raws then "skip:deflate"
       else
-        let srv := (raws.map (packetFrame noZlib thr)).flatten
+        let srv := (srvFrames noZlib thr raws).flatten
         match clientRead P idXform () noZlib thr.isSome [srv] with
         | (inbox, .eof) =>
-          match runLoop P.newer107 true capW capR inbox with
-          | none => "err:other"      -- no progress: `capr=0` never reads
-          | some r =>
+          match runLoop P.newer107 true capW capR inbox, runT P.newer107 true capW capR inbox with
+          | some r, some tw =>
+            let tt := thrTags thr (switchPkts raws) tw
             let replies := r.wire.map (replyFields P)
-            if needsDeflate thr replies then "skip:deflate"
+            if tt.any fun qt => needsDeflate qt.2 [replyFields P qt.1] then "skip:deflate"
             else
-              let cli := (clientWire noZlib thr P idXform () r.wire).flatten
+              let cli := (clientWireT noZlib P idXform () tt).flatten
+              let thrs := if tt.isEmpty then "-" else ",".intercalate (tt.map fun qt => showThr qt.2)
               s!"ok srv={hexOut srv} cli={hexOut cli} replies={showPkts replies} " ++
-                s!"closed={if r.closed then 1 else 0}"
+                s!"closed={if r.closed then 1 else 0} thrs={thrs}"
+          | _, _ => "err:other"      -- no progress: `capr=0` never reads
         | (_, e) => "err:" ++ toString e
-  | _, _, _, _, _, _ => "bad-op"
+  | _, _, _, _, _, _, _ => "bad-op"
 
 end PlayWireD
 
 /-- `playwire.run ka=<cbid>:<sbid>:<L|V> pos=<cbid>:<ackSbId>:<T|E>:<D|-> disc=<cbid>
-     thr=<none|int> capw=<n> capr=<n> <ev> …`
+     thr=<none|int> capw=<n> capr=<n> [setc=<cbid>] <ev> …`
 
 Profile (all ids decimal): `ka=` clientbound / serverbound keep-alive id and the id width (`L` = Long,
 protocol ≥ 339; `V` = VarInt); `pos=` clientbound position-and-look id, the serverbound id of the
 acknowledgement, `T` = teleport id present and answered by a teleport confirm with id `<ackSbId>`
 (protocol ≥ 107) / `E` = no teleport id, answered by the position echo with id `<ackSbId>`, and `D`
 = a trailing dismount Boolean (written as 0) / `-` = none; `disc=` clientbound disconnect id.
-`thr=` the compression threshold in force in both directions (`none` = compression disabled).
-`capw`/`capr` are the write/read caps of `NetworkingThread._run` (300/50 in the code).
+`thr=` the compression threshold in force in both directions when play starts (`none` = compression
+disabled).  `capw`/`capr` are the write/read caps of `NetworkingThread._run` (300/50 in the code).
+Optional `setc=<cbid>` (directly behind `capr=`): the clientbound id of the play-state "set
+compression" packet (protocols ≤ 47: 70); without it the profile has no such packet.
 
 Events, in the order the server writes them:
 * `ka:<idInt>` — keep-alive; `L`: any signed 64-bit int (taken mod 2^64); `V`: a non-negative int, or
@@ -130,12 +187,18 @@ Events, in the order the server writes them:
 * `pos:<x>:<y>:<z>:<yaw>:<pitch>:<flags>:<tid>` — x, y, z 8 bytes hex each (the Double's bytes), yaw,
   pitch 4 bytes hex each, flags a Nat `< 256`, tid a Nat (ignored with `E`);
 * `unk:<pid>:<hex>` — a packet with id `<pid>` (meant to be unknown to the client) and that payload;
-* `disc:<jsonhex>` — disconnect, the hex of the JSON string's UTF-8 bytes.
+* `disc:<jsonhex>` — disconnect, the hex of the JSON string's UTF-8 bytes;
+* `setc:<n>` — play-state set compression with threshold `<n>` (a Nat; needs `setc=<cbid>`): the
+  server frames everything BEHIND it with threshold `<n>`, the client reads everything behind it with
+  compression enabled and frames every reply it WRITES after having processed it with `<n>`.
 
-Reply `ok srv=<hex|-> cli=<hex|-> replies=<id.fieldshex,…|-> closed=<0|1>`: the server's byte stream
-(one frame per event), the bytes the client hands to `socket.send` while running the loop on what it
-decodes from `srv` (peer open, no cipher), the replies as decimal id `.` field bytes, and whether the
-connection was closed (a disconnect was processed).
+Reply `ok srv=<hex|-> cli=<hex|-> replies=<id.fieldshex,…|-> closed=<0|1> thrs=<none|int,…|->`: the
+server's byte stream (one frame per event), the bytes the client hands to `socket.send` while running
+the loop on what it decodes from `srv` (peer open, no cipher), the replies as decimal id `.` field
+bytes, whether the connection was closed (a disconnect was processed), and the threshold each reply
+was framed with (the one in force when `_write_packet` wrote it).
+Example: `playwire.run ka=0:0:V pos=8:6:E:- disc=64 thr=none capw=300 capr=2 setc=70 ka:1 setc:256 ka:2`
+→ `ok srv=0200010346800203000002 cli=0300000103000002 replies=0.01,0.02 closed=0 thrs=256,256`.
 `skip:deflate` if a frame of either direction would take the zlib `compress` branch (zlib is a
 parameter of the model); `err:<Err>` if the client's `read_packet` raises on the stream (e.g. an
 `unk` id that collides with a known id and does not parse), `err:other` for `capr=0` (the loop never
